@@ -35,7 +35,7 @@ LETTERS = 'abcd'
 MOD_NAMES = ['mod_a', 'b_mod', 'modc', 'use_mod', 'module_d', 'type_mod', 'end_mod', 'interface_m']
 SUB_STEMS = ['sub', 'call', 'k', 'do', 'end', 'subroutine', 'function', 'use', 'interface', 'contains', 'type',
              'module', 'procedure', 'if']
-FUN_STEMS = ['fn', 'function', 'real', 'integer', 'f', 'call', 'subroutine', 'end']
+FUN_STEMS = ['fn', 'function', 'real', 'integer', 'f', 'call', 'sub', 'end']   # (a FUNCTION named subroutine_x is one more way into the listed ModulePattern finding)
 TYPE_STEMS = ['t', 'type', 'class', 'ty', 'end_type', 'procedure']
 BIND_NAMES = ['go', 'run', 'procedure_p', 'generic_g', 'call_b', 'final_f', 'p', 'pass_it', 'contains_b']
 IFACE_STEMS = ['gen', 'interface', 'gi', 'module', 'procedure', 'end_interface']
@@ -753,7 +753,7 @@ def _body(b, env, depth, n):
 # ---------------------------------------------------------------------------------------------
 # layouts
 # ---------------------------------------------------------------------------------------------
-LAYOUT_TRIGGERS = ['end_gap', 'endjoin_iface', 'quotecomment']
+LAYOUT_TRIGGERS = ['end_gap', 'endjoin_iface', 'quotecomment', 'leadblank']
 
 
 @st.composite
@@ -774,6 +774,7 @@ def layouts(draw, plain=False, triggers=()):
         'end_gap': ch(60) if 'end_gap' in triggers else False,
         'endjoin_iface': ch(60) if 'endjoin_iface' in triggers else False,
         'quotecomment': ch(60) if 'quotecomment' in triggers else False,
+        'leadblank': ch(60) if 'leadblank' in triggers else False,
     }
 
 
